@@ -9,9 +9,10 @@ import (
 
 func init() {
 	register(&Property{ID: "C01", Run: runC01,
-		Explain: "Structural necessary conditions of C01 decided for all inputs and schedules: the local delivery fan-out wiring. (R01.1) publishMessage/publishMessageBatch reach notifySubs for every message and the router's Publish on every non-local path; (R01.2) notifySubs visits every subscription of the topic (no early exit) and attempts the channel send in each iteration not excluded by the subscription's own filter; (R01.3) processLoop dispatches sendMsg to publishMessage and incoming RPCs to handleIncomingRPC, which pushes every message that passed shouldPush and always hands the RPC to the router on the AcceptAll/AcceptControl arms; (R01.4) the hello packet and announce loops visit every topic / every peer. Also re-evaluated here as shared obligations, because network-wide delivery rests on them: interest announcements and hello packets (C05), recipient inclusion (C06 R06.6/R06.3/R06.1), outgoing size gates and field exhaustiveness (C11 R11.1-R11.3), gossip repair wiring (C17 B4/B6/B7/SCHED/WIRE). NOT decided: overlay convergence, mesh settling, that gossip actually repairs losses, exactly-once across the network (liveness over topologies and schedules).",
+		Explain: "Structural necessary conditions of C01 decided for all inputs and schedules: the local delivery fan-out wiring. (R01.1) publishMessage/publishMessageBatch reach notifySubs for every message and the router's Publish on every non-local path; (R01.2) notifySubs visits every subscription of the topic (no early exit) and attempts the channel send in each iteration not excluded by the subscription's own filter; (R01.3) processLoop dispatches sendMsg to publishMessage and incoming RPCs to handleIncomingRPC, which pushes every message that passed shouldPush and always hands the RPC to the router on the AcceptAll/AcceptControl arms; (R01.4) the hello packet and announce loops visit every topic / every peer; (R01.5) the batch hand-off transfers ownership: MessageBatch.take returns the accumulated slice, resets the field to nil / a fresh slice (never a re-slice that keeps the backing array a later add() would overwrite), and take/add run under the batch mutex. Also re-evaluated here as shared obligations, because network-wide delivery rests on them: interest announcements and hello packets (C05), recipient inclusion (C06 R06.6/R06.3/R06.1), outgoing size gates and field exhaustiveness (C11 R11.1-R11.3), gossip repair wiring (C17 B4/B6/B7/SCHED/WIRE). NOT decided: overlay convergence, mesh settling, that gossip actually repairs losses, exactly-once across the network (liveness over topologies and schedules).",
 		Assume:  []string{"go/cfg models control flow of the analysed functions faithfully", "router convergence and network delivery are outside the static claim"},
 		Mutants: []Mutant{
+			{Name: "batch-take-keeps-backing-array", File: "messagebatch.go", Old: "\tmb.messages = nil\n", New: "\tmb.messages = mb.messages[:0]\n", Expect: "R01.5"},
 			{Name: "notifySubs-return-on-slow-subscriber", File: "pubsub.go", Old: "\t\t\tp.tracer.UndeliverableMessage(msg)\n", New: "\t\t\tp.tracer.UndeliverableMessage(msg)\n\t\t\treturn\n", Expect: "R01.2"},
 			{Name: "publish-skip-router", File: "pubsub.go", Old: "\tif !msg.Local {\n\t\tp.rt.Publish(msg)\n\t}", New: "\tif !msg.Local && len(p.mySubs[msg.GetTopic()]) > 0 {\n\t\tp.rt.Publish(msg)\n\t}", Expect: "R01.1"},
 			{Name: "push-loop-return", File: "pubsub.go", Old: "\t\tfor _, msg := range toPush {\n\t\t\tp.pushMsg(msg)\n\t\t}", New: "\t\tfor i, msg := range toPush {\n\t\t\tif i > 64 {\n\t\t\t\tbreak\n\t\t\t}\n\t\t\tp.pushMsg(msg)\n\t\t}", Expect: "R01.3"},
@@ -260,6 +261,52 @@ func runC01(c *RuleCtx) {
 	c.Min["R06.6"] = 5
 	c.Min["R11.3"] = 4
 	c.Min["SCHED"] = 30
+	// R01.5 batch hand-off transfers ownership: take() returns the accumulated slice and must not keep a reference
+	// to its backing array (a later add() would overwrite messages of the batch in flight), and both sides run
+	// under the batch mutex
+	if f := c.MustFn("R01.5", "(*MessageBatch).take"); f != nil {
+		nRet := 0
+		returnsIn(f, func(r *ast.ReturnStmt) {
+			if len(r.Results) != 1 {
+				return
+			}
+			nRet++
+			v := p.R(f).Val(r.Results[0])
+			c.Check(v.IsField("MessageBatch.messages"), "R01.5", f.Name, "returns the accumulated messages", r, v.String(), "take returns "+v.String()+" instead of the accumulated batch")
+		})
+		if nRet == 0 {
+			c.Undecided("R01.5", f.Name, "return", f.Decl, "no return of the batch")
+		}
+		nSt := 0
+		for _, s := range p.StoresTo("MessageBatch.messages") {
+			if s.Fn != f {
+				continue
+			}
+			nSt++
+			rv := p.R(f).Val(s.RHS)
+			fresh := isNilV(rv) || rv.IsCall("builtin.make") || rv.Kind == "comp"
+			c.Check(fresh && s.Kind == "assign", "R01.5", f.Name, "batch storage released after hand-off", s.Node, "the field is reset to nil / a fresh slice", "after handing the batch over, the field is set to "+rv.String()+", which shares the backing array of the returned slice: a later add() overwrites a message of the batch in flight")
+		}
+		if nSt == 0 {
+			c.Bad("R01.5", f.Name, "batch storage released after hand-off", f.Decl, "take does not reset the field: the same messages would be published again")
+		}
+		for _, fn := range []string{"(*MessageBatch).take", "(*MessageBatch).add"} {
+			if ff := c.MustFn("R01.5", fn); ff != nil {
+				ok, _ := p.Graph(ff).MustPass(p.Graph(ff).Entry(), PassOpts{}, func(n ast.Node) bool {
+					for _, cs := range p.CallsIn(ff, n, false) {
+						if id, op := p.mutexOfCall(ff, cs.Call); id == "MessageBatch.mu" && op == "Lock" {
+							return true
+						}
+					}
+					return false
+				})
+				c.Check(ok, "R01.5", ff.Name, "runs under the batch mutex", ff.Decl, "locks MessageBatch.mu on every path", "the batch is accessed without its mutex")
+			}
+		}
+		callers := p.CallerNames(f.Name)
+		c.Check(len(callers) >= 1, "R01.5", f.Name, "consumed by the publisher", nil, strings.Join(callers, ","), "take has no caller")
+	}
+	c.Min["R01.5"] = 5
 	c.Min["R01.1"] = 3
 	c.Min["R01.2"] = 2
 	c.Min["R01.3"] = 8
